@@ -149,7 +149,8 @@ pub fn dirty_receiver(e: &mut Emu, kind: usize, rng: &mut Rng, m128: bool) {
         }
         8 => {
             // the host stopped the machine in the middle of a frame (breakpoint) before loading
-            write_mem(e, 0x8800, &[0x18, 0xFE]);
+            // (the program keeps changing the border, so the stop comes after border writes of this very frame)
+            write_mem(e, 0x8800, &[0x3C, 0xD3, 0xFE, 0x18, 0xFB]); // INC A ; OUT (FE),A ; JR back
             st.to_impl(e.verif_cpu());
             let _ = run_frames(e, 1);
             set_break_mode(e, BreakMode::EveryNth(300 + rng.below(5000)));
